@@ -75,6 +75,7 @@ type Frame struct {
 	loopOld  map[int]*Snapshot
 	loopExit map[int]*Snapshot // by loop ordinal: state when the (cut) loop was left on this path
 	lockSnap *Snapshot         // state right after the most recent Lock in this frame
+	assumePending map[int]int  // assumeat clauses whose statement is being executed (clause index -> source line)
 	loopMeas map[int]*Term
 	locksAt  int
 	isGo     bool
@@ -575,7 +576,30 @@ func (ex *Exec) runPath() {
 		ins := fr.block.Instrs[fr.ip]
 		fr.ip++
 		ex.curIns = ins
+		if fr.fn == ex.root && ex.contract != nil && len(ex.contract.AssumeAt) > 0 && ins.Pos().IsValid() {
+			ex.assumeAtHook(fr, ins)
+		}
 		ex.step(fr, ins)
+	}
+}
+
+// assumeAtHook implements `assumeat "<source snippet>" <expr>`: a trusted fact about the state right after the statement
+// whose source line contains the snippet (assumed when execution moves on to an instruction of another line).
+func (ex *Exec) assumeAtHook(fr *Frame, ins ssa.Instruction) {
+	line := sourceLine(ex.prog, ins.Pos())
+	pos := ex.prog.SSA.Fset.Position(ins.Pos())
+	for i, aa := range ex.contract.AssumeAt {
+		if fr.assumePending == nil {
+			fr.assumePending = map[int]int{}
+		}
+		if l, pending := fr.assumePending[i]; pending && l != pos.Line {
+			delete(fr.assumePending, i)
+			ex.note("ASSUMED after \"" + aa.Label + "\" in " + relName(ex.root) + ": " + aa.Text)
+			ex.assume(ex.evalBool(aa.E, ex.envFor(fr, nil)))
+		}
+		if strings.Contains(line, aa.Label) {
+			fr.assumePending[i] = pos.Line
+		}
 	}
 }
 
